@@ -1015,6 +1015,13 @@ fn ssz_decode_derive_enum_tag(derive_input: &DeriveInput, enum_data: &DataEnum) 
                     .copied()
                     .ok_or(ssz::DecodeError::OutOfBoundsByte { i: 0 })?;
 
+                if bytes.len() != 1 {
+                    return Err(ssz::DecodeError::InvalidByteLength {
+                        len: bytes.len(),
+                        expected: 1,
+                    });
+                }
+
                 match byte {
                     #(
                         #union_selectors => {
